@@ -5,7 +5,7 @@
 use super::Show;
 use crate::loader::Context;
 use crate::output::{Digits, DocString, PropertyReply, SubstanceReply};
-use crate::types::{BaseUnit, Number, Numeric};
+use crate::types::{BaseUnit, BigInt, Number, Numeric};
 use std::collections::BTreeMap;
 use std::iter::once;
 use std::ops::{Add, Div, Mul};
@@ -179,12 +179,27 @@ impl Substance {
                                     .iter()
                                     .map(|(k, v)| (BaseUnit::new(k), *v as i64))
                                     .collect();
-                                let mut res = try_div!(output_pretty, input_pretty, context)
-                                    .to_parts(context);
+                                let shown = try_div!(output_pretty, input_pretty, context);
+                                let mut res = shown.to_parts(context);
                                 let value = (&unit / input)
                                     .expect("Already known safe")
                                     .to_parts(context);
                                 res.quantity = value.quantity;
+                                // The value was divided by the constant of the
+                                // target (`water -> 2 kg`), so it has to be shown.
+                                let (num, den) = bottom_const.to_rational();
+                                if num != BigInt::one() {
+                                    res.factor = Some(num.to_string());
+                                }
+                                if den != BigInt::one() {
+                                    res.divfactor = Some(den.to_string());
+                                }
+                                if (res.factor.is_some() || res.divfactor.is_some())
+                                    && res.unit.is_none()
+                                {
+                                    // lets the constant be printed among the units
+                                    res.raw_unit = Some(shown.unit);
+                                }
                                 res
                             } else {
                                 output_show
